@@ -112,6 +112,12 @@ def templates(tier="quick"):
            Stmt("circ", ex=["out"])]
     add("dyndep_cycle_midbuild", [Variant("v0", stm)], ["out", "circ"], files={"dd.in": dd})
     add("dyndep_cycle_present", [Variant("v0", stm)], ["out", "circ"], files={"dd.in": dd, "dd": dd})
+    # the dyndep file names the implicit output it adds as an implicit input of the same statement (a one-node cycle)
+    ddself = dyndep_text([("out", ["out.mod"], ["out.mod"], False)])
+    stself = [Stmt("dd", ex=["dd.in"], copy=True), Stmt("out", ex=["in"], oo=["dd"], dyndep="dd", extra_outs=["out.mod"], extra_reads=["out.mod"]),
+              Stmt("top", ex=["out"])]
+    add("dyndep_output_is_its_own_input_midbuild", [Variant("v0", stself)], ["out", "top"], files={"dd.in": ddself})
+    add("dyndep_output_is_its_own_input_present", [Variant("v0", stself)], ["out", "top"], files={"dd.in": ddself, "dd": ddself})
     # acyclic dyndep control
     dd2 = dyndep_text([("out", [], ["extra"], False)])
     stm2 = [Stmt("dd", ex=["dd.in"], copy=True), Stmt("out", ex=["in"], oo=["dd"], dyndep="dd", extra_reads=["extra"]),
